@@ -11,7 +11,7 @@ import (
 )
 
 var c07Floor = []string{"cte.1", "cte.chain2", "cte.chain3", "cte.twice.join", "cte.twice.union", "cte.twice.insub", "cte.selector", "derived", "derived.where",
-	"subq.nested", "subq.root", "subq.in", "subq.agg", "exists", "exists.outer", "subq.root-correlated", "derived.join", "subq.with", "agg.stages", "inner.agg", "inner.order", "inner.filter", "cte.mixedcase", "exists.outer.marker", "exists.sparse", "subq.in.null-left"}
+	"subq.nested", "subq.root", "subq.in", "subq.agg", "exists", "exists.outer", "subq.root-correlated", "derived.join", "subq.with", "agg.stages", "inner.agg", "inner.order", "inner.filter", "cte.mixedcase", "exists.outer.marker", "exists.sparse", "subq.in.null-left", "exists.shadow", "exists.outer.marker-is"}
 
 func init() {
 	fw.Register(&fw.Prop{
@@ -770,6 +770,23 @@ func c07Run(c *fw.Case) {
 				p = gen.Or{A: outerCmp, B: p}
 			}
 		}
+		if c.Chance(0.3) && !containsStr(feats, "exists.sparse") {
+			// a column of the nested elements named like a column of the outer
+			// row: inside p the name means the element's
+			for _, row := range t.Rows {
+				for _, el := range row["arr"].([]any) {
+					el.(map[string]any)["s1"] = gen.Pick(c.R, []any{"p", "q", "zz"})
+				}
+			}
+			doc = DocOf(t, u)
+			shadow := gen.Cmp{L: gen.Operand{Col: "s1", IsCol: true}, R: gen.Operand{Lit: gen.Pick(c.R, []any{"p", "q"})}, Op: gen.Pick(c.R, []string{"=", "!="})}
+			if c.Chance(0.5) {
+				p = gen.And{A: p, B: shadow}
+			} else {
+				p = shadow
+			}
+			feats = append(feats, "exists.shadow")
+		}
 		neg := c.Chance(0.25)
 		composed := "SELECT rid FROM t1 WHERE "
 		if neg {
@@ -782,6 +799,19 @@ func c07Run(c *fw.Case) {
 			ro.ColText = map[string]string{"n1": gen.Pick(c.R, []string{"`<-n1`", "`<-.n1`"})}
 			doc["n1"] = 987654.0
 			feats = append(feats, "exists.outer.marker")
+			if c.Chance(0.5) {
+				// the marker under IS [NOT] NULL: an outer column that some rows lack
+				for _, row := range t.Rows {
+					if c.Chance(0.4) {
+						delete(row, "n2")
+					}
+				}
+				doc = DocOf(t, u)
+				doc["n1"], doc["n2"] = 987654.0, 5.0
+				ro.ColText["n2"] = gen.Pick(c.R, []string{"`<-n2`", "`<-.n2`"})
+				p = gen.And{A: p, B: gen.IsNull{Col: "n2", Neg: c.Chance(0.5)}}
+				feats = append(feats, "exists.outer.marker-is")
+			}
 		}
 		composed += "EXISTS (SELECT e FROM arr WHERE " + gen.RenderPred(p, ro) + ")"
 		var want []any
